@@ -41,6 +41,15 @@ func init() {
 			s := c11Sites[c.Site]
 			confReset()
 			log.VerifClearFrameCache()
+			// history: the same process has logged before with caller lookup ON (from another call site), so
+			// that recycled events / cached frames from that time exist whatever the shard order of cases
+			if err, pn := safeRefresh(map[string]string{"appender.r0.type": "Rec", "logger.root.type": "Logger", "logger.root.appenderRef.ref": "r0", "logger.root.level": "TRACE", "enableCaller": "true"}); err == nil && pn == nil {
+				for i := 0; i < 3; i++ {
+					c11Sites[(c.Site+7)%len(c11Sites)].run()
+				}
+				log.Destroy()
+			}
+			confReset()
 			conf := map[string]string{"appender.r0.type": "Rec", "logger.root.type": "Logger", "logger.root.appenderRef.ref": "r0", "logger.root.level": "TRACE",
 				"enableCaller": fmt.Sprint(c.Enable), "fastCaller": fmt.Sprint(c.Fast)}
 			key := fmt.Sprintf("%s/%s fast=%v enableCaller=%v", s.ep, s.shape, c.Fast, c.Enable)
